@@ -87,6 +87,19 @@ func (x *Exec) cutLoopHeader(fc *funcCtx, n *node, l *loopInfo) {
 		st.Next = nn
 	}
 	x.havocGhostForLoop(n, fc, l)
+	// map iteration counters of range loops cut here: arbitrary 0 <= j <= n
+	for b := range l.body {
+		for _, ins := range b.Instrs {
+			if nx, ok := ins.(*ssa.Next); ok && !nx.IsString {
+				if ib, ok := n.env[nx.Iter].(iterBox); ok {
+					jf := x.VC.Fresh("range.j", bv64)
+					x.VC.Assume(n.guard, And(BVCmp("bvsle", BVLit(0, 64), jf), BVCmp("bvsle", jf, ib.it.n)), "range-j")
+					st.Vars["range.j:"+nx.Iter.Name()] = Scalar{T: jf, Ty: tyInt}
+					st.Vars["range.iter"] = ib
+				}
+			}
+		}
+	}
 	for _, ins := range n.b.Instrs {
 		phi, ok := ins.(*ssa.Phi)
 		if !ok {
@@ -96,6 +109,10 @@ func (x *Exec) cutLoopHeader(fc *funcCtx, n *node, l *loopInfo) {
 		n.env[phi] = v
 		if phi.Comment != "" {
 			st.Vars[phi.Comment] = v
+		}
+		// index of a range-over-slice loop: starts at -1 and is incremented by one while < len: never below -1
+		if sc, ok := v.(Scalar); ok && sc.T.S.Kind == "BV" && sc.T.S.W == 64 && isRangeIndexPhi(phi) {
+			x.VC.Assume(n.guard, And(BVCmp("bvsge", sc.T, BVLit(^uint64(0), 64)), BVCmp("bvsle", sc.T, lim47)), "rangeindex")
 		}
 	}
 	// 3. assume invariant
@@ -307,3 +324,23 @@ func (x *Exec) collapseGuard(fc *funcCtx, n *node, st *State) (*Term, bool) {
 }
 
 var _ = types.Typ
+
+// isRangeIndexPhi recognises the hidden index of `for i, x := range slice`: phi [-1, phi+1].
+func isRangeIndexPhi(phi *ssa.Phi) bool {
+	seenInit := false
+	for _, e := range phi.Edges {
+		if c, ok := e.(*ssa.Const); ok && c.Value != nil && c.Int64() == -1 {
+			seenInit = true
+			continue
+		}
+		b, ok := e.(*ssa.BinOp)
+		if !ok || b.X != phi {
+			return false
+		}
+		one, ok := b.Y.(*ssa.Const)
+		if !ok || one.Value == nil || one.Int64() != 1 {
+			return false
+		}
+	}
+	return seenInit
+}
